@@ -1,3 +1,81 @@
-import OptreeModel.Model.Eval
+/-
+  C09  Broadcasting replicates prefix leaves onto the matching positions.
+-/
+import OptreeModel.Model.Ops
+
 namespace Optree
+
+/-- mismatching `none_is_leaf` or conflicting namespaces are rejected with `ValueError` -/
+theorem C09_rejects (a b : Spec) (hs : a.sane = true ∧ b.sane = true)
+    (h : a.noneIsLeaf ≠ b.noneIsLeaf ∨ nsCompatible a.ns b.ns = false) :
+    broadcast a b = .error .value := by
+  unfold broadcast
+  simp only [hs.1, hs.2, Bool.not_true, Bool.or_self, Bool.false_eq_true, if_false]
+  rcases h with h | h
+  · simp [h]
+  · by_cases hn : a.noneIsLeaf = b.noneIsLeaf <;> simp [hn, h]
+
+theorem copyRev_all (nodes : List Node) (hne : nodes ≠ []) :
+    copyRev nodes ((nodes.length : Int) - 1) nodes.length = nodes.reverse := by
+  unfold copyRev
+  have h1 : ((nodes.length : Int) - 1).toNat + 1 = nodes.length := by
+    have : 0 < nodes.length := List.length_pos_iff.mpr hne
+    omega
+  rw [h1]
+  simp
+
+/-- **A leaf is a prefix of everything** (engine level): where the first treespec has a leaf, the
+merge walk copies the other treespec's whole subtree and reports its counts -/
+theorem C09_leaf_left_go (fuel : Nat) (otr : List Node) (opos : Pos) (out : List Node)
+    (oroot : Node) (hat : nodeAt otr opos = .ok oroot) (hsize : ¬ (opos + 1 < (oroot.numNodes : Int))) :
+    broadcastGo (fuel + 1) [Node.leaf] 0 otr opos out =
+      .ok (⟨1, oroot.numNodes, oroot.numNodes, oroot.numLeaves⟩,
+           out ++ copyRev otr opos oroot.numNodes) := by
+  rw [broadcastGo]
+  have h0 : nodeAt [Node.leaf] 0 = .ok Node.leaf := rfl
+  simp only [h0, hat]
+  have hg : (decide ((0 : Int) + 1 < ((Node.leaf).numNodes : Int)) ||
+      decide (opos + 1 < (oroot.numNodes : Int))) = false := by
+    simp [Node.leaf, hsize]
+  simp only [hg, Bool.false_eq_true, if_false]
+  simp [Node.leaf]
+
+/-- symmetric case: where the *other* treespec has a leaf, the first one's subtree is kept -/
+theorem C09_leaf_right_go (fuel : Nat) (tr : List Node) (pos : Pos) (out : List Node)
+    (root : Node) (hat : nodeAt tr pos = .ok root) (hsize : ¬ (pos + 1 < (root.numNodes : Int)))
+    (hk : root.kind ≠ .leaf) :
+    broadcastGo (fuel + 1) tr pos [Node.leaf] 0 out =
+      .ok (⟨root.numNodes, 1, root.numNodes, root.numLeaves⟩, out ++ copyRev tr pos root.numNodes) := by
+  rw [broadcastGo]
+  have h0 : nodeAt [Node.leaf] 0 = .ok Node.leaf := rfl
+  simp only [h0, hat]
+  have hg : (decide (pos + 1 < (root.numNodes : Int)) ||
+      decide ((0 : Int) + 1 < ((Node.leaf).numNodes : Int))) = false := by
+    simp [Node.leaf, hsize]
+  have hkb : (root.kind == Kind.leaf) = false := by simpa using hk
+  simp only [hg, Bool.false_eq_true, if_false, hkb]
+  simp [Node.leaf]
+
+/-- conflicting node kinds are rejected with `ValueError` (tuple against list, …) -/
+theorem C09_kind_conflict (fuel : Nat) (tr otr : List Node) (pos opos : Pos) (out : List Node)
+    (root oroot : Node) (hat : nodeAt tr pos = .ok root) (hoat : nodeAt otr opos = .ok oroot)
+    (hsz : ¬ (pos + 1 < (root.numNodes : Int))) (hosz : ¬ (opos + 1 < (oroot.numNodes : Int)))
+    (hk : root.kind = .tuple) (hok : oroot.kind = .list) :
+    broadcastGo (fuel + 1) tr pos otr opos out = .error .value := by
+  rw [broadcastGo]
+  simp only [hat, hoat]
+  have hg : (decide (pos + 1 < (root.numNodes : Int)) ||
+      decide (opos + 1 < (oroot.numNodes : Int))) = false := by simp [hsz, hosz]
+  simp [hg, hk, hok]
+
+/-! ### non-vacuity -/
+
+def C09_demo : Spec :=
+  { nodes := [Node.leaf, Node.leaf,
+              { kind := .tuple, arity := 2, data := .none, entries := Option.none, custom := Option.none,
+                numLeaves := 2, numNodes := 3, originalKeys := Option.none }],
+    noneIsLeaf := false, ns := "" }
+
+example : C09_demo.sane = true := by decide
+
 end Optree
